@@ -40,6 +40,11 @@ pub fn generate_c01(tier: &str, rng: &mut Prng) -> Vec<Case> {
         }
         let keys = key_seeds(rng, if thorough { 8 } else { 2 });
         let per_key = if thorough { 1200 } else { 60 };
+        // the whole of `sign` in the Lean model (floating point included), fed the same byte stream: same signature bytes,
+        // and the model's verify accepts them
+        for ks in &keys {
+            sign_model_ops(n, ks, if thorough { 6 } else { 2 }, rng, &mut ops);
+        }
         for ks in &keys {
             for i in 0..per_key {
                 let ml = match i % 12 {
@@ -84,8 +89,35 @@ pub fn generate_c01(tier: &str, rng: &mut Prng) -> Vec<Case> {
     ops
 }
 
+/// `sign_model`: the signature verifies (library and specification verifier) and its salt is the first 40 bytes of the
+/// stream the generator yielded in this call
+pub fn oracle_sign_model(op: &[&str], out: &str) -> Verdict {
+    if out.starts_with("PANIC") {
+        return Verdict::Fail(format!("sign/verify panicked: {out}"));
+    }
+    let p: Vec<&str> = out.split(' ').collect();
+    if p.len() != 4 {
+        return Verdict::NotApplicable; // stream-exhausted / key-mismatch: nothing to judge
+    }
+    let n: usize = op[1].parse().unwrap();
+    if p[3] != "true" {
+        return Verdict::Fail("verify rejected an honestly produced signature".into());
+    }
+    let sig = unhex(p[0]);
+    match spec_verify(n, &unhex(op[7]), &sig, &unhex(op[10])) {
+        Some(true) => {}
+        other => return Verdict::Fail(format!("the specification's verifier does not accept the signature: {:?}", other)),
+    }
+    let first = Prng::new(op[8].parse().unwrap()).bytes(40);
+    if sig.len() < 41 || sig[1..41] != first[..] {
+        return Verdict::Fail("the salt is not the first 40 bytes drawn from the generator in this call".into());
+    }
+    Verdict::Pass
+}
+
 pub fn oracle_c01(op: &[&str], out: &str) -> Verdict {
     match op[0] {
+        "sign_model" => oracle_sign_model(op, out),
         "sign" => {
             if out.starts_with("PANIC") {
                 return Verdict::Fail(format!("sign/verify panicked: {out}"));
@@ -144,6 +176,8 @@ pub fn generate_c08(tier: &str, rng: &mut Prng) -> Vec<Case> {
             let rs = if i % 5 == 0 { 77 } else { rng.next() >> 1 };
             ops.push(Case::new(format!("sign_salt {n} {} {} {rs}", hex(ks), hex(&msg))));
         }
+        // the model of `sign` takes the salt from the first 40 bytes of the stream: same bytes as the real code
+        sign_model_ops(n, &keys[0], if thorough { 6 } else { 1 }, rng, &mut ops);
         // thorough, Falcon-512: enough signatures for a birthday collision in any 32-bit bottleneck of the salt's source
         ops.push(Case::new(format!("sign_fresh {n} {} {} 8", hex(&keys[0]), if thorough { if n == 512 { 300_000 } else { 20_000 } } else { 400 })));
     }
@@ -152,6 +186,7 @@ pub fn generate_c08(tier: &str, rng: &mut Prng) -> Vec<Case> {
 
 pub fn oracle_c08(op: &[&str], out: &str) -> Verdict {
     match op[0] {
+        "sign_model" => oracle_sign_model(op, out),
         "sign_salt" => {
             let p: Vec<&str> = out.split(' ').collect();
             if p.len() == 2 && p[0] == p[1] {
@@ -280,6 +315,10 @@ pub fn generate_c10(tier: &str, rng: &mut Prng) -> Vec<Case> {
                 ));
             }
         }
+        // the whole of `sign` in the Lean model (floating point included), fed the same byte stream: same signature bytes
+        for ks in &keys {
+            sign_model_ops(n, ks, if thorough { 12 } else { 2 }, rng, &mut ops);
+        }
         for ks in &keys {
             for _ in 0..(if thorough { 1500 } else { 60 }) {
                 let ml = rng.below(64) as usize;
@@ -296,6 +335,9 @@ pub fn generate_c10(tier: &str, rng: &mut Prng) -> Vec<Case> {
 }
 
 pub fn oracle_c10(op: &[&str], out: &str) -> Verdict {
+    if op[0] == "sign_model" {
+        return oracle_sign_model(op, out);
+    }
     if op[0] == "sign_stats" {
         if out.starts_with("PANIC") {
             return Verdict::Fail(format!("sign panicked: {out}"));
@@ -348,4 +390,18 @@ pub fn oracle_c10(op: &[&str], out: &str) -> Verdict {
     // the normalised squared norm of one signature is a chi-square-like variable with 2n degrees of freedom and mean 2n
     // (per-signature support only; the aggregate is reported in the evidence by bin/check)
     Verdict::Pass
+}
+
+/// `count` sign_model ops for the key of `ks` (see `sign::op_sign_model`)
+pub fn sign_model_ops(n: usize, ks: &[u8], count: usize, rng: &mut Prng, ops: &mut Vec<Case>) {
+    let info = crate::keys::keygen_info(n, ks);
+    let rows: Vec<String> = info.b0.iter().map(|r| ints(&r.iter().map(|&x| x as i64).collect::<Vec<i64>>())).collect();
+    let pk = hex(&info.pk_bytes);
+    for i in 0..count {
+        let ml = [0usize, 1, 9, 33, 96, 200][i % 6];
+        let msg = rng.bytes(ml);
+        // 2n samples of at least 17 bytes, about 1.45 trials each, room for a few attempts
+        let len = 72 + 2 * n * 17 * 6;
+        ops.push(Case::new(format!("sign_model {n} {} {} {} {} {} {} {} {len} {pk}", hex(ks), rows[0], rows[1], rows[2], rows[3], hex(&msg), rng.next() >> 1)));
+    }
 }
